@@ -61,6 +61,7 @@ class Interp:
         self.depth = 0
         self.stack = []                # Func objects of active interpreted calls
         self.fs = {}                   # ghost filesystem: path -> list[int] (binary) | list[str] (text lines)
+        self.cwd = ""                  # ghost working directory, relative to the root the fs keys are relative to ("" = the root)
         self.fs_writes = []            # (path, data) in order
         self.stdout = []
         self.call_hook = None          # fn(interp, func, args:dict) -> (handled, result)
@@ -138,7 +139,10 @@ class Interp:
                 "dirname": Builtin("os.path.dirname", lambda p_: self.native(os.path.dirname, p_)),
                 "splitext": Builtin("os.path.splitext", lambda p_: self.native(os.path.splitext, p_)),
                 "join": Builtin("os.path.join", lambda *p_: self.native(os.path.join, *p_)),
-                "abspath": Builtin("os.path.abspath", lambda p_: p_)})})
+                "abspath": Builtin("os.path.abspath", self._abspath),
+                "isdir": Builtin("os.path.isdir", lambda p_: any(k.startswith(self._fskey(p_).rstrip("/") + "/") for k in self.fs) or self._fskey(p_) == "")}),
+                "getcwd": Builtin("os.getcwd", lambda: self.GHOST_ROOT + ("/" + self.cwd if self.cwd else "")),
+                "chdir": Builtin("os.chdir", self._chdir), "sep": "/"})
         if name == "sys":
             return ModStub("sys", {"exit": Builtin("sys.exit", self._sys_exit), "argv": []})
         if name == "copy":
@@ -147,10 +151,38 @@ class Interp:
             return ModStub("argparse", {})
         raise EngineError("import of unmodelled module %s" % name)
 
+    GHOST_ROOT = "/ghost"
+
+    def _fskey(self, p):
+        """ghost-fs key of a path as the program names it: relative names are taken from the ghost working directory, absolute
+        names must lie below the ghost root"""
+        if not isinstance(p, str):
+            return p
+        if p.startswith(self.GHOST_ROOT):
+            rel = p[len(self.GHOST_ROOT):].lstrip("/")
+        elif p.startswith("/"):
+            return p
+        else:
+            rel = os.path.join(self.cwd, p) if self.cwd else p
+        rel = os.path.normpath(rel) if rel else ""
+        return "" if rel == "." else rel
+
+    def _abspath(self, p):
+        k = self._fskey(p)
+        return self.GHOST_ROOT + ("/" + k if k else "") if not (isinstance(k, str) and k.startswith("/")) else k
+
+    def _chdir(self, p):
+        k = self._fskey(p)
+        if self.write_hook is not None:
+            self.write_hook(self, "<process working directory>", "chdir", "process")
+        self.cwd = k
+        return None
+
     def _exists(self, p):
-        return p in self.fs
+        return self._fskey(p) in self.fs
 
     def _getsize(self, p):
+        p = self._fskey(p)
         if p not in self.fs:
             raise PyRaise(self.mk_exc("FileNotFoundError", p))
         return len(self.fs[p])
@@ -1733,10 +1765,11 @@ class Interp:
             if path is None:
                 self.raise_("TypeError", "expected str, bytes or os.PathLike object, not NoneType")
             raise EngineError("open() with symbolic path")
+        key = self._fskey(path)
         if "r" in mode:
-            if path not in self.fs:
+            if key not in self.fs:
                 raise PyRaise(self.mk_exc("FileNotFoundError", "[Errno 2] No such file or directory: '%s'" % path), self.site())
-        return FileObj(self.fs, path, mode)
+        return FileObj(self.fs, key, mode)
 
     def _file_op(self, f, name, *a):
         if name == "readlines":
